@@ -148,6 +148,14 @@ FIXED += [
      c19("subroutine s\ncommon /a/ x(5) // y\nend\n", ["SUBROUTINE s()", "COMMON / a / x(5) // y", "END SUBROUTINE s"])),
 ]
 
+FIXED += [
+    ("C02", "token-mismatch", "62bc5e6", "'generic :: g =>abc' (no blank after '=>') lost the first character of the binding name: parsed and regenerated as 'GENERIC :: g => bc'",
+     {"mode": "source", "std": "f2003", "text": "module m\n  type t\n  contains\n    generic :: assignment(=) =>abc, d\n    generic, private :: gg=>Xy\n  end type t\nend module m\n",
+      "expected": "MODULE m\nTYPE :: t\nCONTAINS\nGENERIC :: ASSIGNMENT(=) => abc, d\nGENERIC, PRIVATE :: gg => Xy\nEND TYPE t\nEND MODULE m"}),
+    ("C06", "IndexError@Data_Edit_Desc_C1002.match", "75888e0", "'format (e)' / '(g)': IndexError escaped instead of a syntax error",
+     c06("program p\n10 format (e)\n20 format (2(g), a)\nend program p\n")),
+]
+
 OPEN = [
     ("C03", "defined-binary-op-with-dotted-right", "a defined binary operator with a dotted operator or logical literal to its right at the same parenthesis level is not parsed (Expr.match splits at the right-most .word. and gives up if that one is intrinsic)",
      {"mode": "expr", "text": "a .x. b .and. c", "expected": "(a.x.(b.and.c))", "context": "expr", "known": True}),
